@@ -68,6 +68,8 @@ func (v *PointerSchema) process(ctx *p.SchemaCtx) {
 			return
 		}
 		ctx.Data = val
+		// the wrapped schema must see the provider, not the factory: a body can only be read once
+		subCtx.Data = val
 	}
 	// End of messy code
 
